@@ -1,11 +1,11 @@
 #!/bin/sh
 # usage: run_all.sh [quick|thorough] [props...]  -- runs the checks one after the other, prints one summary line each
 TIER=${1:-quick}; shift
-cd /verif
+cd "$(dirname "$0")/.."
 PROPS=${*:-$(python3 -c "import json; print(' '.join(c['property_id'] for c in json.load(open('MANIFEST.json'))['checks']))")}
-mkdir -p /tmp/runall
+OUT=${RUNALL_OUT:-/tmp/runall}; mkdir -p $OUT
 for P in $PROPS; do
   S=$(date +%s)
-  ./bin/check $P --tier $TIER > /tmp/runall/$P.$TIER.out 2>&1; RC=$?
-  echo "$P $TIER rc=$RC $(( $(date +%s) - S ))s :: $(grep -c '^VIOLATION' /tmp/runall/$P.$TIER.out) viol, $(grep -c '^KNOWN-FINDING' /tmp/runall/$P.$TIER.out) known, $(grep -c '^INCONCLUSIVE' /tmp/runall/$P.$TIER.out) inconcl, $(grep -c '^HARNESS' /tmp/runall/$P.$TIER.out) herr :: $(tail -1 /tmp/runall/$P.$TIER.out | cut -c1-160)"
+  ./bin/check $P --tier $TIER > $OUT/$P.$TIER.out 2>&1; RC=$?
+  echo "$P $TIER rc=$RC $(( $(date +%s) - S ))s :: $(grep -c '^VIOLATION' $OUT/$P.$TIER.out) viol, $(grep -c '^KNOWN-FINDING' $OUT/$P.$TIER.out) known, $(grep -c '^INCONCLUSIVE' $OUT/$P.$TIER.out) inconcl, $(grep -c '^HARNESS' $OUT/$P.$TIER.out) herr :: $(tail -1 $OUT/$P.$TIER.out | cut -c1-160)"
 done
